@@ -226,7 +226,8 @@ func (r *Reader) eachByte(b byte) {
 				}
 			*/
 			r.state = readerStateClean
-			if r.HandleSysex {
+			// sysex messages larger than the buffer are ignored
+			if r.HandleSysex && r.sysexlen > 0 && r.sysexlen < len(r.sysexBf) {
 				r.sysexBf[r.sysexlen] = b
 				r.sysexlen++
 				//go
@@ -252,9 +253,14 @@ func (r *Reader) eachByte(b byte) {
 			return
 		}
 
-		if r.HandleSysex {
-			r.sysexBf[r.sysexlen] = b
-			r.sysexlen++
+		if r.HandleSysex && r.sysexlen > 0 {
+			if r.sysexlen < len(r.sysexBf) {
+				r.sysexBf[r.sysexlen] = b
+				r.sysexlen++
+			} else {
+				// too large for the buffer: drop it
+				r.sysexlen = 0
+			}
 		}
 
 		/*
